@@ -254,6 +254,10 @@ def run_harness(h, budget_s=20.0, seed=0, native_tries=300):
                 if d["status"] == "sat" and d.get("model") is not None and h.native_call is not None and ob.kind != "ieee-bump-effective":
                     try:
                         inp = model_inputs(h, ctx, d["model"])
+                        if h.sample is not None:
+                            # inputs the model does not speak about (seeds, unused tensors) get sampled defaults
+                            base = h.sample(h, np.random.default_rng(seed))
+                            base.update(inp); inp = base
                         nat = native_eval(h, inp)
                         fail["model_inputs"] = inp_jsonable(inp)
                         fail["native"] = {k: v for k, v in nat.items()}
